@@ -187,6 +187,10 @@ def run(rep: vlib.Reporter, tier: str, seed: int) -> None:
         "prepare_execute_step and is not modelled"]
     big = tier == "thorough"
     found = False
+    # ---- protocol level: every exit path of real THREADING / MULTIPROCESSING runs as a trace of Model/Worker.v (join / terminate
+    # order, store keys), plus the judge lines about processes / threads / keys left
+    if worker_proto.report(rep, "C09", tier, seed, n_specs=(40 if big else 5)):
+        found = True
     tc = tracker_cases(rng, 4000 if big else 500)
     bad, info1 = vlib.run_cases("C09", "tracker", REQ, "chk_tracker", [t for t, _ in tc], extra_defs=EXTRA,
                                 case_type="(list nat * bool * list (list nat)) * list (bool * nat)")
@@ -258,10 +262,6 @@ def run(rep: vlib.Reporter, tier: str, seed: int) -> None:
                             else:
                                 rep.finding(f"premature-drop:{key}", f"a step needed a dataset that is not in the store: {r['exc']}", replay)
                                 found = True
-    # ---- protocol level: every exit path of real THREADING / MULTIPROCESSING runs as a trace of Model/Worker.v (join / terminate
-    # order, store keys), plus the judge lines about processes / threads / keys left
-    if worker_proto.report(rep, "C09", tier, seed, n_specs=(40 if big else 5)):
-        found = True
     stop_flight_server()
     rep.add("distribution", dist)
     rep.add("rule", "unit level: PRNG children sets (1-5 of 8 ids), with/without uploads, 1-5 processed feature sets; deferred drops "
